@@ -174,6 +174,18 @@ def pairsOK : List Nat → List Ix → List Ix → Bool
              decide (0 < s.step) && (match y with | .int m => (s.at d m).isSome | _ => true)
            | _, _ => true) && pairsOK dims.tail a b'
 
+/-- entries of an index tuple that are not `None` (each indexes one axis of the array it is applied to) -/
+def cntIdx : List Ix → Nat
+  | [] => 0
+  | .newaxis :: t => cntIdx t
+  | _ :: t => cntIdx t + 1
+
+/-- entries of an index tuple that leave an axis in `x[a]` (everything but integers) -/
+def cntAxes : List Ix → Nat
+  | [] => 0
+  | .int _ :: t => cntAxes t
+  | _ :: t => cntAxes t + 1
+
 /-- shape of `x[t]` for `x` of shape `dims` (`none`: an integer out of range or too many indices) -/
 def shapeIx : List Nat → List Ix → Option (List Nat)
   | dims, [] => some dims
